@@ -1,7 +1,193 @@
 import Driver.Common
-open Lean Drv
+import NriModel.Plugins
+open Lean Drv Nri Nri.Plugins
+
+/-!
+Driver for C20. Case kinds:
+
+* `pod`   — `in = {ctr, ann:[{k,v,fam,ok,devices,cdi,mounts,ulimits}]}`: one CreateContainer
+            request through the two launched plugin binaries; `obs = {err, devices, cdi, mounts,
+            rlimits, other, crashed}`. The per-annotation `ok/devices/…` fields are the YAML
+            oracle (what sigs.k8s.io/yaml made of the value for that family's target type).
+* `upper` — the table behind `upperChar` against `unicode.ToUpper` over all code points.
+-/
 namespace Drv.C20
-/-- placeholder until the property's driver is written -/
-def judge (_ : Json) : Except String Verdict := .error "C20 driver not implemented"
+
+def decDevice (j : Json) : Except String Device := do
+  pure { path := S (← getStr j "path"), type := S (← getStr j "type"), major := ← getInt j "major",
+         minor := ← getInt j "minor", fileMode := ← getNat j "file_mode", uid := ← getNat j "uid",
+         gid := ← getNat j "gid" }
+
+def decMount (j : Json) : Except String Mount := do
+  pure { source := S (← getStr j "source"), destination := S (← getStr j "destination"),
+         type := S (← getStr j "type"), options := (← getStrList j "options").map S }
+
+def decUlimit (j : Json) : Except String Ulimit := do
+  pure { type := S (← getStr j "type"), hard := ← getNat j "hard", soft := ← getNat j "soft" }
+
+structure AnnEntry where
+  k : Str
+  v : Str
+  fam : String
+  ok : Bool
+  devices : List Device
+  cdi : List Str
+  mounts : List Mount
+  ulimits : List Ulimit
+
+def decAnn (j : Json) : Except String AnnEntry := do
+  pure { k := S (← getStr j "k"), v := S (← getStr j "v"), fam := ← getStr j "fam", ok := ← getBool j "ok",
+         devices := ← (← getArr j "devices").mapM decDevice,
+         cdi := (← getStrList j "cdi").map S,
+         mounts := ← (← getArr j "mounts").mapM decMount,
+         ulimits := ← (← getArr j "ulimits").mapM decUlimit }
+
+/-- the YAML oracle as a function: the table the harness computed, looked up by (family, value) -/
+def oracle {α : Type} (es : List AnnEntry) (fam : String) (f : AnnEntry → List α) (raw : Str) : Option (List α) :=
+  match es.find? (fun e => e.fam == fam && e.v == raw) with
+  | some e => if e.ok then some (f e) else none
+  | none => none
+
+def mkYaml (es : List AnnEntry) : Yaml :=
+  { devices := oracle es "devices" (·.devices), cdi := oracle es "cdi" (·.cdi),
+    mounts := oracle es "mounts" (·.mounts), ulimits := oracle es "ulimits" (·.ulimits) }
+
+def errName : Err → String
+  | .badDevices => "bad-devices" | .badCDI => "bad-cdi" | .badMounts => "bad-mounts"
+  | .badUlimits => "bad-ulimits" | .badType => "bad-type" | .hardLtSoft => "hard-lt-soft"
+  | .conflictMount => "conflict-mount" | .conflictDevice => "conflict-device"
+  | .conflictCDI => "conflict-cdi" | .conflictRlimit => "conflict-rlimit"
+
+def decObsDevice (j : Json) : Except String ApiDevice := do
+  let opt (has val : String) : Except String (Option Nat) := do
+    if ← getBool j has then pure (some (← getNat j val)) else pure none
+  pure { path := S (← getStr j "path"), type := S (← getStr j "type"), major := ← getInt j "major",
+         minor := ← getInt j "minor", fileMode := ← opt "has_mode" "file_mode",
+         uid := ← opt "has_uid" "uid", gid := ← opt "has_gid" "gid" }
+
+def decObsRlimit (j : Json) : Except String Rlimit := do
+  pure { type := S (← getStr j "type"), hard := ← getNat j "hard", soft := ← getNat j "soft" }
+
+def decObsAdjust (obs : Json) : Except String Adjust := do
+  pure { devices := ← (← getArr obs "devices").mapM decObsDevice,
+         cdi := (← getStrList obs "cdi").map S,
+         mounts := ← (← getArr obs "mounts").mapM decMount,
+         rlimits := ← (← getArr obs "rlimits").mapM decObsRlimit }
+
+/-- entries carrying the removal marker are outside the model (see `mergeInjector`) -/
+def dropMarked (a : Adjust) : Adjust :=
+  { a with mounts := a.mounts.filter (fun m => !marked m.destination),
+           devices := a.devices.filter (fun d => !marked d.path) }
+
+def showAdjust (a : Adjust) : String :=
+  let dev (d : ApiDevice) := s!"{U d.path}:{U d.type}:{d.major}:{d.minor}:{d.fileMode}:{d.uid}:{d.gid}"
+  let mnt (m : Mount) := s!"{U m.source}->{U m.destination}:{U m.type}:{m.options.map U}"
+  let rl (r : Rlimit) := s!"{U r.type}:{r.hard}:{r.soft}"
+  s!"devices={a.devices.map dev} cdi={a.cdi.map U} mounts={a.mounts.map mnt} rlimits={a.rlimits.map rl}"
+
+def firstDiff (want got : Adjust) : String :=
+  if want.devices != got.devices then "devices"
+  else if want.cdi != got.cdi then "cdi"
+  else if want.mounts != got.mounts then "mounts"
+  else if want.rlimits != got.rlimits then "rlimits"
+  else ""
+
+/-- which of the three scopes an injector family used (for the coverage histogram) -/
+def scopeTag (ann : Annotations) (main ctr : Str) : String :=
+  if (AList.lookup ann (containerKey main ctr)).isSome then "ctr"
+  else if (AList.lookup ann (podKey main)).isSome then "pod"
+  else if (AList.lookup ann main).isSome then "bare"
+  else "none"
+
+def judgePod (inp obs : Json) : Except String Verdict := do
+  let ctr := S (← getStr inp "ctr")
+  let stream := getStrD inp "stream"
+  let es ← (← getArr inp "ann").mapM decAnn
+  let ann : Annotations := es.map fun e => (e.k, e.v)
+  let Y := mkYaml es
+  -- the oracle must cover every value the plugins can be asked to decode
+  let famOf (m : Str) : String :=
+    if m == deviceKey then "devices" else if m == cdiDeviceKey then "cdi"
+    else if m == mountKey then "mounts" else "ulimits"
+  for m in [deviceKey, cdiDeviceKey, mountKey] do
+    for k in [containerKey m ctr, podKey m, m] do
+      match es.find? (fun e => e.k == k) with
+      | some e => if e.fam != famOf m then throw s!"oracle does not cover key {U k}"
+      | none => pure ()
+  match es.find? (fun e => e.k == containerKey ulimitKey ctr) with
+  | some e => if e.fam != "ulimits" then throw "oracle does not cover the ulimit key"
+  | none => pure ()
+  let oErr ← getStr obs "err"
+  let oOther := getStrD obs "other"
+  let crashed := getBoolD obs "crashed"
+  let oAdj ← decObsAdjust obs
+  -- model
+  let m := create Y ann ctr
+  let (agree, mdesc) := match m with
+    | .error e => (oErr == errName e, s!"error {errName e}")
+    | .ok r => (oErr == "" && dropMarked oAdj == r && oOther == "", s!"ok {showAdjust r}")
+  let agree := agree && !crashed
+  -- specification, directly on the observation
+  let exp := Spec.expected Y ann ctr
+  let (inDomain, spec, sig, swhy) : Bool × Bool × String × String := match exp with
+    | none =>
+      if crashed then (true, false, "C20:plugin-crashed", "a plugin process was gone after the request")
+      else if oErr == "" then
+        (true, false, "C20:error-expected:got-adjustment",
+          s!"a selected annotation is malformed / names an unknown rlimit / has hard<soft, but the request succeeded with {showAdjust oAdj}")
+      else (true, true, "", "")
+    | some a =>
+      if !Plain a then (false, true, "guard:" ++ (if oErr == "" then "ok" else oErr), "")
+      else if crashed then (true, false, "C20:plugin-crashed", "a plugin process was gone after the request")
+      else if oErr != "" then
+        (true, false, s!"C20:unexpected-error:{oErr}", s!"well-formed annotations, but the request failed with {oErr}; expected {showAdjust a}")
+      else if oAdj != a then
+        (true, false, s!"C20:wrong-adjustment:{firstDiff a oAdj}", s!"expected {showAdjust a}; got {showAdjust oAdj}")
+      else if oOther != "" then
+        (true, false, s!"C20:extra-adjustment:{oOther}", s!"response also carries {oOther}")
+      else (true, true, "", "")
+  let sel (m : Str) := scopeTag ann m ctr
+  let ulSel := if (AList.lookup ann (containerKey ulimitKey ctr)).isSome then "ctr" else "none"
+  let anySel := sel deviceKey != "none" || sel cdiDeviceKey != "none" || sel mountKey != "none" || ulSel != "none"
+  let others := es.any fun e => e.fam != "" && !(relevant ctr).contains e.k
+  let cover := [s!"stream:{stream}", s!"devices:{sel deviceKey}", s!"cdi:{sel cdiDeviceKey}", s!"mounts:{sel mountKey}",
+    s!"ulimits:{ulSel}", s!"outcome:{if oErr == "" then "ok" else oErr}",
+    (if exp.isNone then "expected:error" else "expected:adjust")]
+    ++ (if others then ["with-annotations-for-other-containers"] else [])
+    ++ (if !inDomain then ["excluded"] else [])
+  let why := if !spec then swhy
+    else if !agree then s!"model: {mdesc}; impl: {if oErr == "" then "ok " ++ showAdjust oAdj else "error " ++ oErr}{if crashed then " (plugin crashed)" else ""}{if oOther != "" then " other=" ++ oOther else ""}"
+    else ""
+  pure { agree := agree, spec := spec, why := why, cover := cover, nontrivial := anySel && inDomain,
+         sig := if spec && inDomain then "" else sig, excluded := !inDomain,
+         model := Json.str mdesc }
+where
+  relevant (ctr : Str) : List Str :=
+    [ containerKey deviceKey ctr, podKey deviceKey, deviceKey,
+      containerKey cdiDeviceKey ctr, podKey cdiDeviceKey, cdiDeviceKey,
+      containerKey mountKey ctr, podKey mountKey, mountKey, containerKey ulimitKey ctr ]
+
+/-- the model's upper-casing table against Go's `unicode.ToUpper` -/
+def judgeUpper (obs : Json) : Except String Verdict := do
+  let ascii ← (← getArr obs "ascii").mapM fun j => match j.getNat? with
+    | .ok n => pure n | .error e => throw e
+  let extra ← (← getArr obs "extra").mapM fun j => match j with
+    | Json.arr #[a, b] => do pure ((← a.getNat?), (← b.getNat?))
+    | _ => throw "extra: pair expected"
+  let strOk := getBoolD obs "str"
+  let mAscii := (List.range 128).map fun n => (upperChar (Char.ofNat n)).toNat
+  let mExtra := (upperTable.filter fun p => p.1.toNat ≥ 128).map fun p => (p.1.toNat, p.2.toNat)
+  let ok := ascii == mAscii && extra == mExtra && strOk
+  pure { agree := ok, spec := true, cover := ["upper-table"], nontrivial := false,
+         why := if ok then "" else s!"upper-casing table differs from unicode.ToUpper: ascii agree={ascii == mAscii} extra={extra} strings.ToUpper rune-wise={strOk}" }
+
+def judge (j : Json) : Except String Verdict := do
+  let inp ← getObj j "in"
+  let obs ← getObj j "obs"
+  match getStrD inp "kind" with
+  | "pod" => judgePod inp obs
+  | "upper" => judgeUpper obs
+  | k => throw s!"unknown case kind {k}"
+
 def main : IO UInt32 := runLines judge
 end Drv.C20
